@@ -8,3 +8,7 @@ open Biogo.Properties.C02_checker
 #print axioms wantCoords_is_one_based
 #print axioms wantRegion_is_roundtrip
 #print axioms wantSeq_is_roundtrip
+#print axioms wantBedFile_single
+#print axioms wantGffFile_single
+#print axioms wantBedFile_is_records_then_eof
+#print axioms wantGffFile_is_features_then_eof
